@@ -257,9 +257,10 @@ void BfgsMultiDimensions::setDirection()
 
   for (size_t i = 0; i < nbParams; i++)
   {
-    if (p_[i] + NumConstants::TINY() * xi_[i] >= Up_[i])
+    // Only a move towards a bound is cut at the bound (a coordinate sitting on a bound must be able to leave it):
+    if (xi_[i] > 0 && p_[i] + NumConstants::TINY() * xi_[i] >= Up_[i])
       xi_[i] = Up_[i] - p_[i];
-    else if (p_[i] + NumConstants::TINY() * xi_[i] <= Lo_[i])
+    else if (xi_[i] < 0 && p_[i] + NumConstants::TINY() * xi_[i] <= Lo_[i])
       xi_[i] = Lo_[i] - p_[i];
     else
       xi_[i] *= alpmax;
